@@ -22,8 +22,8 @@ type Finding struct {
 // advertisement equal to the sender's current one.
 func (sn *Snap) RoutingQuiescent() (bool, string) {
 	s := sn.s
-	if vsched.Pending() > 0 || len(s.Held) > 0 {
-		return false, "tasks queued or held"
+	if vsched.Pending() > 0 || len(s.Held) > 0 || len(s.InFlight) > 0 {
+		return false, "tasks queued or held, or Data in flight"
 	}
 	for i, n := range s.Nodes {
 		if !n.Up {
